@@ -231,7 +231,7 @@ func buildWorld(f *idp, statsdPort int, addrs, doms []string, pre bool) *world {
 }
 
 func (w *world) depCoq() string {
-	return fmt.Sprintf("(Build_deployment %s [(%s,F.Google);(%s,F.Okta)] %s %s %s %s %s %s %s %s %d %d)",
+	return fmt.Sprintf("(Build_deployment %s [(%s,AGoogle);(%s,AOkta)] %s %s %s %s %s %s %s %s %d %d)",
 		c.Str(authHost), c.Str("google"), c.Str("okta"), c.Bool(w.pre), c.Strs([]string{"proxy.test"}),
 		c.Str(clientID), c.Str(clientSecret), c.Str("https"), c.Strs(w.addrs), c.Strs(w.doms), c.Z(lifetimeTTL), keyCode, keyCookie)
 }
@@ -929,7 +929,7 @@ func (o obs) coq() string {
 
 type ghost struct {
 	Route            string // Coq term of groute
-	Kind             string // F.Google / F.Okta
+	Kind             string // AGoogle / AOkta
 	Method           string
 	IDs, Secrets     []string
 	URI, TS          string
@@ -947,9 +947,9 @@ type ghost struct {
 }
 
 func newGhost(route, slug, method string) ghost {
-	k := "F.Google"
+	k := "AGoogle"
 	if slug == "okta" {
-		k = "F.Okta"
+		k = "AOkta"
 	}
 	return ghost{Route: route, Kind: k, Method: method, Sig: "G.SigAbsent", Cookie: "F.CkNone", Code: "None", From: -1, JSON: map[string]interface{}{}}
 }
